@@ -123,7 +123,7 @@ def prod_scalars(n):
     c = [1, 2, 3, 0xff, 1 << 64, (1 << (bl - 1)) - 1, 1 << (bl - 1),
          n // 2 - 1, n // 2, n // 2 + 1, n - 3, n - 2, n - 1,
          int("aa" * 70, 16) % n, int("55" * 70, 16) % n,
-         (1 << (bl - 8)) + 1, (1 << (bl - 9)) - 1]
+         (1 << max(0, bl - 8)) + 1, (1 << max(1, bl - 9)) - 1]
     out = []
     for v in c:
         if 1 <= v < n and v not in out:
